@@ -1,5 +1,6 @@
 import Proofs.WalkerProofs
 import CModel.Generated.WalkerSites
+import Proofs.LockExitProofs
 /-!
 # C08 — ledger operations never wedge the node
 
@@ -58,5 +59,46 @@ theorem unlocked_nested_consumer_can_deadlock :
     let c : Cfg := { policy := .drain, nested := true, writerEarly := true }
     let s := run c [.P, .P, .P, .W, .P] (init 2 0)
     stuck c s = true ∧ terminated s = false := nested_rlock_deadlocks
+
+/-! ### no exit of any function leaves a mutex held
+
+`Generated.lockExits` is re-extracted from the node's packages on every run: the lock events on the path to
+every `return` / end of body of every function and function literal that touches a mutex. -/
+section LockExits
+open CModel.LockExit
+
+/-- **Generated obligation**: every exit of today's source is clean - nothing held after the deferred
+releases ran, nothing released that was not held; blocks control falls out of are neutral. -/
+theorem all_lock_exits_clean : ∀ e ∈ lockExits, exitOk e = true := by decide +kernel
+
+/-- the extraction found the functions -/
+theorem lock_exits_found : lockExits.length ≥ 120 ∧ lockExitFunctionsWithMutex ≥ 35 ∧ lockExitFunctionsScanned ≥ 200 := by
+  decide +kernel
+
+theorem exitOk_held {e : LockExit} (h : exitOk e = true) (hk : e.kind ≠ .block) : heldAfter e.events = [] := by
+  unfold exitOk at h
+  cases hkind : e.kind with
+  | block => exact absurd hkind hk
+  | ret => rw [hkind] at h; simp only [Bool.and_eq_true, List.isEmpty_iff] at h; exact h.1
+  | fnEnd => rw [hkind] at h; simp only [Bool.and_eq_true, List.isEmpty_iff] at h; exact h.1
+
+/-- **Main theorem**: whatever functions of the node a goroutine calls, in whatever order, and whichever
+`return` each call leaves through - early error exits included - it holds no mutex afterwards. -/
+theorem no_exit_leaves_a_lock_held (calls : List LockExit) (hc : ∀ e ∈ calls, e ∈ lockExits ∧ e.kind ≠ .block) :
+    afterCalls calls = [] :=
+  afterCalls_nil calls (fun e he => exitOk_held (all_lock_exits_clean e (hc e he).1) (hc e he).2)
+
+/-- Non-vacuity: an early `return` between `Lock()` and a hand-written `Unlock()` is not clean, and the lock
+it leaves behind is still held after any number of further calls. -/
+theorem early_return_leaks :
+    exitOk ⟨"gossip", "gossiper.Discover", 275, .ret, [.acquire "g.mux"]⟩ = false ∧
+    ∀ pre post, "g.mux" ∈ afterCalls (pre ++ (⟨"gossip", "gossiper.Discover", 275, .ret, [.acquire "g.mux"]⟩ : LockExit) :: post) :=
+  ⟨by decide, fun pre post => leak_persists pre post _ "g.mux" (by decide)⟩
+
+/-- the hand-written release of `processLackingParent` (copy the peer table, release, then talk to the peers)
+is clean as well -/
+example : exitOk ⟨"gossip", "gossiper.processLackingParent", 0, .fnEnd, [.acquire "g.mux", .release "g.mux"]⟩ = true := by decide
+
+end LockExits
 
 end Props.C08
